@@ -75,6 +75,13 @@ class MultiVector:
         if isinstance(values, Mapping):
             keys, values = zip(*values.items()) if values else (tuple(), list())
             values = list(values)
+            if algebra.graded and keys:
+                # The keys of a mapping have to be complete grades as well.
+                keys = tuple(k if k in algebra.bin2canon else algebra.canon2bin[k] for k in keys)
+                key_grades = tuple(sorted({format(k, 'b').count('1') for k in keys}))
+                if keys != algebra.indices_for_grades[key_grades]:
+                    raise ValueError(f"In graded mode, the keys should be equal to "
+                                     f"those expected for a multivector of grades={key_grades}.")
         elif len(values) == len(algebra.indices_for_grades[grades]) and not keys:
             keys = algebra.indices_for_grades[grades]
         elif name and not values:
